@@ -6,17 +6,18 @@ Import ListNotations.
 Check (scan_covers_refs : forall o, In o interned_ops -> In o scanned_ops).
 Check (C06_config_now_sound :
   (forall o, refs_global o = true -> scanned cfg_now o = true) /\
-  c_header cfg_now = true /\ c_follow cfg_now = true /\ c_snapshot cfg_now = true).
+  c_header cfg_now = true /\ c_follow cfg_now = true /\ c_snapshot cfg_now = true /\ c_clear_marks cfg_now = true).
 Check (C06_bound_step : forall c fuel e u,
-  ((forall o, refs_global o = true -> scanned c o = true) /\ c_header c = true /\ c_follow c = true /\ c_snapshot c = true) ->
+  ((forall o, refs_global o = true -> scanned c o = true) /\ c_header c = true /\ c_follow c = true /\ c_snapshot c = true /\
+   c_clear_marks c = true) ->
   Bound e -> Bound (fst (run_unit c fuel e u))).
 Check (C06_bound_history : forall fuel h, Bound (fst (run_history cfg_now fuel eng_new h))).
 Check (C06_redefine_local : forall c e fs, Bound e -> c_snapshot c = true ->
-  globals (fst (build c e fs)) = globals e /\
+  globals (fst (build c e fs)) = globals e /\ heap (fst (build c e fs)) = heap e /\
   (forall s b, owner_of e s = Some b -> owner_of (fst (build c e fs)) s = Some b) /\
   Forall (fun o => match o with Some s => owner_of e s = None | None => True end) (snd (first_pass e fs))).
-Check (C06_set_visible : forall fuel g s b n, s < length g ->
-  eval fuel g (RSet s b (RConst n)) = (set_nth s (VInt n) g, Some (nth s g VVoid)) /\
+Check (C06_set_visible : forall fuel g hp s b n, s < length g ->
+  eval fuel (g, hp) (RSet s b (RConst n)) = ((set_nth s (VInt n) g, hp), Some (nth s g VVoid)) /\
   nth s (set_nth s (VInt n) g) VVoid = VInt n /\
   (forall t, t <> s -> nth t (set_nth s (VInt n) g) VVoid = nth t g VVoid)).
 Check (C06_rollback_restores : forall c fuel e u, c_snapshot c = true ->
@@ -24,14 +25,23 @@ Check (C06_rollback_restores : forall c fuel e u, c_snapshot c = true ->
   u_expand_fails u = true \/ snd (build c e (u_forms u)) = None ->
   fst (run_unit c fuel e u) = e).
 Check (C06_rollback_truncate_refuted :
-  exists e fs x s, sm_get (sm e) x = Some s /\ snd (build (mkCfg scanned_ops true true false) e fs) = None /\
-                   sm_get (sm (fst (build (mkCfg scanned_ops true true false) e fs))) x = None).
+  exists e fs x s, sm_get (sm e) x = Some s /\ snd (build (mkCfg scanned_ops true true false true) e fs) = None /\
+                   sm_get (sm (fst (build (mkCfg scanned_ops true true false true) e fs))) x = None).
 Check (C06_scan_without_SET_refuted :
-  exists h, ~ Bound (fst (run_history (mkCfg (filter (fun o => negb (op_eqb o Op_SET)) scanned_ops) true true true) 10 eng_new h))).
+  exists h, ~ Bound (fst (run_history (mkCfg (filter (fun o => negb (op_eqb o Op_SET)) scanned_ops) true true true true) 10 eng_new h))).
 Check (C06_scan_without_header_refuted :
-  exists h, ~ Bound (fst (run_history (mkCfg scanned_ops false true true) 10 eng_new h))).
+  exists h, ~ Bound (fst (run_history (mkCfg scanned_ops false true true true) 10 eng_new h))).
 Check (C06_scan_without_follow_refuted :
-  exists h, ~ Bound (fst (run_history (mkCfg scanned_ops true false true) 10 eng_new h))).
+  exists h, ~ Bound (fst (run_history (mkCfg scanned_ops true false true true) 10 eng_new h))).
+Check (C06_scan_with_stale_marks_refuted :
+  exists h, ~ Bound (fst (run_history (mkCfg scanned_ops true true true false) 10 eng_new h))).
+Check (C06_bound_cells : forall e s a, Bound e -> In a (cells_in (nth s (globals e) VVoid)) -> a < length (heap e) ->
+  val_ok e (nth a (heap e) VVoid)).
+Check (C06_heap_nonvacuous :
+  let e := fst (run_history cfg_now 10 eng_new h_stale_marks) in
+  threshold (fl (sm e)) <> initial_threshold /\ free (fl (sm e)) <> [] /\
+  nth 2 (globals e) VVoid = VRef 0 /\ val_okb e (nth 0 (heap e) VVoid) = true /\
+  (exists h b c, nth 0 (heap e) VVoid = VClo h b c /\ b <> [])).
 Check (C06_nonvacuous :
   let e := fst (run_history cfg_now 10 eng_new h_no_follow) in
   threshold (fl (sm e)) <> initial_threshold /\
@@ -54,4 +64,7 @@ Print Assumptions C06_rollback_truncate_refuted.
 Print Assumptions C06_scan_without_SET_refuted.
 Print Assumptions C06_scan_without_header_refuted.
 Print Assumptions C06_scan_without_follow_refuted.
+Print Assumptions C06_scan_with_stale_marks_refuted.
+Print Assumptions C06_bound_cells.
+Print Assumptions C06_heap_nonvacuous.
 Print Assumptions C06_nonvacuous.
